@@ -198,8 +198,10 @@ type IO struct {
 	// port number is therefore visible in the loaded value as well as in the log.
 	X, Y  uint8
 	Fixed bool // if set, In always returns X
-	nIn   int
-	Hook  func(out bool, port uint8)
+	// Absent models "no device attached": In answers 0, nothing is logged
+	Absent bool
+	nIn    int
+	Hook   func(out bool, port uint8)
 }
 
 // InValue is the byte the device answers for the k-th read, from port p.
@@ -212,6 +214,9 @@ func (d *IO) InValue(p uint8, k int) uint8 {
 
 // In implements z80.IO.
 func (d *IO) In(p uint8) uint8 {
+	if d.Absent {
+		return 0
+	}
 	if d.Hook != nil {
 		d.Hook(false, p)
 	}
@@ -223,6 +228,9 @@ func (d *IO) In(p uint8) uint8 {
 
 // Out implements z80.IO.
 func (d *IO) Out(p uint8, v uint8) {
+	if d.Absent {
+		return
+	}
 	if d.Hook != nil {
 		d.Hook(true, p)
 	}
